@@ -305,11 +305,8 @@ class BDsScore(BDeuScore):
         gammaln(log_gamma_conds + alpha, out=log_gamma_conds)
 
         # Adjustment because of missing 0 columns when using reindex=False for computing state_counts to save memory.
-        gamma_counts_adj = (
-            (num_parents_states - counts.shape[1])
-            * len(self.state_names[variable])
-            * gammaln(beta)
-        )
+        # (reindex=False also drops the rows of declared but unobserved states of `variable`.)
+        gamma_counts_adj = (counts_size - counts.size) * gammaln(beta)
         gamma_conds_adj = (num_parents_states - counts.shape[1]) * gammaln(alpha)
 
         score = (
